@@ -71,8 +71,14 @@ theorem recvPayload_winv (s : St) (b : Base) (hf : s.fault = false)
     have h1 : ¬ s.buf.length > s.expecting + padLen s.compat s.expecting := by omega
     have h2 : ¬ s.buf.length + (s.expecting + padLen s.compat s.expecting - s.buf.length) > BUFSZ := by omega
     simp only [h1, h2, ↓reduceIte]
-    have hrl := read_len b (s.expecting + padLen s.compat s.expecting - s.buf.length)
-    rcases hr : b.read (s.expecting + padLen s.compat s.expecting - s.buf.length) with ⟨⟨ret, bytes⟩, b1⟩
+    have hrl : (if s.expecting + padLen s.compat s.expecting - s.buf.length > 0
+        then b.read (s.expecting + padLen s.compat s.expecting - s.buf.length) else ((0, []), b)).1.2.length ≤
+        s.expecting + padLen s.compat s.expecting - s.buf.length := by
+      split
+      · exact read_len b _
+      · simp
+    rcases hr : (if s.expecting + padLen s.compat s.expecting - s.buf.length > 0
+        then b.read (s.expecting + padLen s.compat s.expecting - s.buf.length) else ((0, []), b)) with ⟨⟨ret, bytes⟩, b1⟩
     rw [hr] at hrl
     simp only at hrl ⊢
     split
@@ -167,7 +173,7 @@ theorem pump_winv (fuel : Nat) (s : St) (b : Base) (o : Obs) (hw : WInv s) : WIn
 /-! ### the byte-at-a-time reference decoder -/
 
 inductive Ph where
-  | run | stuck | zero
+  | run | stuck
   deriving DecidableEq, Repr
 
 /-- abstract decoder state: bytes of the current partial header/frame, announced frame size,
@@ -185,7 +191,9 @@ def afterHdr (c : Compat) (a : A) (buf1 : Bytes) : A :=
   | none => { a with buf := buf1, ph := .stuck }
   | some (buf', e) =>
     if e + padLen c e > BUFSZ then { a with buf := buf', exp := e, ph := .stuck }
-    else if buf'.length = e + padLen c e then { a with buf := buf', exp := e, ph := .zero }
+    else if buf'.length = e + padLen c e then
+      -- a frame without payload is complete with its header (an empty frame is not handed up)
+      { a with buf := [], exp := 0, out := if buf'.isEmpty then a.out else a.out ++ [buf'] }
     else { a with buf := buf', exp := e }
 
 /-- consume one byte -/
@@ -294,9 +302,22 @@ theorem recvPayload_empty (s : St) (b : Base) (hf : s.fault = false)
   have h0 : ¬ (s.expecting + padLen s.compat s.expecting > BUFSZ) := by omega
   have h1 : ¬ s.buf.length > s.expecting + padLen s.compat s.expecting := by omega
   have h2 : ¬ s.buf.length + (s.expecting + padLen s.compat s.expecting - s.buf.length) > BUFSZ := by omega
-  simp only [recvPayload, h0, h1, h2, ↓reduceIte, read_healthy_nil b hb hp]
+  have hc : s.expecting + padLen s.compat s.expecting - s.buf.length > 0 := by omega
+  simp only [recvPayload, h0, h1, h2, hc, ↓reduceIte, read_healthy_nil b hb hp]
   have h3 : ¬ (s.buf.length = s.expecting + padLen s.compat s.expecting) := by omega
   simp [h3]
+
+/-- a frame without payload: nothing is read, the header is the frame -/
+theorem recvPayload_zero (s : St) (b : Base)
+    (hfit : s.expecting + padLen s.compat s.expecting ≤ BUFSZ)
+    (heq : s.buf.length = s.expecting + padLen s.compat s.expecting) :
+    recvPayload s b = (((s.buf.length : Int), some s.buf), { s with expecting := 0, buf := [] }, b) := by
+  have h0 : ¬ (s.expecting + padLen s.compat s.expecting > BUFSZ) := by omega
+  have h1 : ¬ s.buf.length > s.expecting + padLen s.compat s.expecting := by omega
+  have h2 : ¬ s.buf.length + (s.expecting + padLen s.compat s.expecting - s.buf.length) > BUFSZ := by omega
+  have hc : ¬ (s.expecting + padLen s.compat s.expecting - s.buf.length > 0) := by omega
+  have hbe : (s.buf.length == s.expecting + padLen s.compat s.expecting) = true := by simp [heq]
+  simp only [recvPayload, h0, h1, h2, hc, ↓reduceIte, show ¬ ((0 : Int) < 0) by decide, List.append_nil, hbe]
 
 theorem recvPayload_data (s : St) (b : Base) (hf : s.fault = false)
     (hfit : s.expecting + padLen s.compat s.expecting ≤ BUFSZ)
@@ -312,7 +333,8 @@ theorem recvPayload_data (s : St) (b : Base) (hf : s.fault = false)
   have h1 : ¬ s.buf.length > s.expecting + padLen s.compat s.expecting := by omega
   have h2 : ¬ s.buf.length + (s.expecting + padLen s.compat s.expecting - s.buf.length) > BUFSZ := by omega
   have hc : 0 < s.expecting + padLen s.compat s.expecting - s.buf.length := by omega
-  simp only [recvPayload, h0, h1, h2, ↓reduceIte, read_healthy_cons b hb hp _ hc, show ¬ ((1 : Int) < 0) by decide]
+  have hc' : s.expecting + padLen s.compat s.expecting - s.buf.length > 0 := hc
+  simp only [recvPayload, h0, h1, h2, hc', ↓reduceIte, read_healthy_cons b hb hp _ hc, show ¬ ((1 : Int) < 0) by decide]
   have hl : 0 < b.pend.length := List.length_pos_iff.mpr hp
   simp only [List.length_append, List.length_take, beq_iff_eq]
   have : min (min (s.expecting + padLen s.compat s.expecting - s.buf.length) b.pend.length) b.pend.length =
@@ -394,15 +416,22 @@ theorem hdr_run (c : Compat) (buf buf' : Bytes) (e hl : Nat) (hh : headerLen c =
   omega
 
 theorem wrap_neg (s : St) (b : Base) : wrap ((-1, none), s, b) = ({ ret := -1 }, s, b) := by simp [wrap]
+theorem wrap_msg (n : Nat) (m : Bytes) (s : St) (b : Base) :
+    wrap (((n : Int), some m), s, b) = if n = 0 then ({ ret := 0 }, s, b) else ({ ret := 1, up := [{ data := m }] }, s, b) := by
+  by_cases h : n = 0
+  · subst h; simp [wrap]
+  · have h1 : ¬ ((n : Int) < 0) := by omega
+    have h2 : ((n : Int) == 0) = false := by simp; omega
+    simp [wrap, h1, h2, h]
+
 theorem wrap_zero (s : St) (b : Base) : wrap ((0, none), s, b) = ({ ret := 0 }, s, b) := by simp [wrap]
 
 /-- **one receive call** on a running decoder with bytes pending consumes a non-empty prefix of
-    them and lands where the reference decoder lands (unless that prefix ends in a zero-size read) -/
+    them and lands where the reference decoder lands -/
 theorem recv_step (hl : Nat) (s : St) (b : Base) (out : List Bytes) (hg : Good hl s)
     (hb : Base.Healthy b) (hp : b.pend ≠ []) :
     ∃ k, 0 < k ∧ k ≤ b.pend.length ∧
-      ((runA s.compat hl (absOf s out) (b.pend.take k)).ph ≠ .zero →
-        Agrees hl s b k out (runA s.compat hl (absOf s out) (b.pend.take k)) (TurnTcp.recv s b)) := by
+      Agrees hl s b k out (runA s.compat hl (absOf s out) (b.pend.take k)) (TurnTcp.recv s b) := by
   obtain ⟨hf, hh, hg0, hgn⟩ := hg
   have hl0 : 0 < b.pend.length := List.length_pos_iff.mpr hp
   rw [recv_eq_wrap]
@@ -421,7 +450,7 @@ theorem recv_step (hl : Nat) (s : St) (b : Base) (out : List Bytes) (hg : Good h
     simp only [show ¬ ((1 : Int) < 0) by decide, ↓reduceIte, List.length_append, htl]
     by_cases hpart : s.buf.length + j < hl
     · -- header still incomplete
-      refine ⟨j, hj, hjle, fun _ => ?_⟩
+      refine ⟨j, hj, hjle, ?_⟩
       simp only [hpart, ↓reduceIte, wrap_zero]
       rw [runA_hdr_lt s.compat hl (absOf s out) (b.pend.take j) rfl he (by simp only [absOf, htl]; exact hpart)]
       refine ⟨rfl, rfl, rfl, rfl, hf, by simp [absOf], rfl, fun _ => ⟨⟨hf, hh, fun _ => ?_, fun h => absurd he h⟩, by simp⟩,
@@ -434,7 +463,7 @@ theorem recv_step (hl : Nat) (s : St) (b : Base) (out : List Bytes) (hg : Good h
       have hlen1 : (s.buf ++ b.pend.take j).length = hl := by simp only [List.length_append, htl]; exact hfull
       cases hhdr : hdr s.compat (s.buf ++ b.pend.take j) with
       | none =>
-        refine ⟨j, hj, hjle, fun _ => ?_⟩
+        refine ⟨j, hj, hjle, ?_⟩
         simp only [wrap_neg]
         rw [hA1]
         simp only [afterHdr, absOf, hhdr]
@@ -444,7 +473,7 @@ theorem recv_step (hl : Nat) (s : St) (b : Base) (out : List Bytes) (hg : Good h
         simp only
         by_cases hbig : e + padLen s.compat e > BUFSZ
         · -- frame larger than the buffer
-          refine ⟨j, hj, hjle, fun _ => ?_⟩
+          refine ⟨j, hj, hjle, ?_⟩
           have : recvPayload { s with buf := buf', expecting := e } { b with pend := b.pend.drop j } =
               ((-1, none), { s with buf := buf', expecting := e }, { b with pend := b.pend.drop j }) := by
             simp [recvPayload, hbig]
@@ -454,10 +483,29 @@ theorem recv_step (hl : Nat) (s : St) (b : Base) (out : List Bytes) (hg : Good h
             intro h; subst h; simp [padLen, BUFSZ] at hbig
           refine ⟨rfl, rfl, rfl, rfl, hf, by simp, rfl, fun h => by simp at h, fun _ => ⟨rfl, hf, hh, Or.inl ⟨he0, hbig⟩⟩⟩
         · by_cases hz : buf'.length = e + padLen s.compat e
-          · -- zero-size read: no claim
-            refine ⟨j, hj, hjle, fun hnz => ?_⟩
-            rw [hA1] at hnz
-            simp [afterHdr, absOf, hhdr, hbig, hz] at hnz
+          · -- a frame without payload: delivered at once (unless it is empty), nothing more is read
+            refine ⟨j, hj, hjle, ?_⟩
+            have hfit : e + padLen s.compat e ≤ BUFSZ := by omega
+            rw [recvPayload_zero { s with buf := buf', expecting := e } { b with pend := b.pend.drop j } hfit hz, wrap_msg, hA1]
+            have hl2 := hl_pos _ _ hh
+            have hgood : Good hl { s with buf := [], expecting := 0 } :=
+              ⟨hf, hh, fun _ => by simp only [List.length_nil]; omega, fun h => absurd rfl h⟩
+            by_cases hemp : buf'.length = 0
+            · have hnil : buf' = [] := List.length_eq_zero_iff.mp hemp
+              rw [if_pos hemp]
+              simp only [afterHdr, absOf, hhdr]
+              rw [if_neg hbig, if_pos hz]
+              simp only [hnil, List.isEmpty_nil, ↓reduceIte]
+              exact ⟨rfl, rfl, rfl, rfl, hf, by simp, rfl, fun _ => ⟨hgood, by simp⟩, fun h => by simp at h⟩
+            · have hie : buf'.isEmpty = false := by
+                cases buf' with
+                | nil => simp at hemp
+                | cons x t => rfl
+              rw [if_neg hemp]
+              simp only [afterHdr, absOf, hhdr]
+              rw [if_neg hbig, if_pos hz]
+              simp only [hie, Bool.false_eq_true, ↓reduceIte]
+              exact ⟨rfl, rfl, rfl, rfl, hf, by simp, rfl, fun _ => ⟨hgood, by simp⟩, fun h => by simp at h⟩
           · obtain ⟨he0, hlt2⟩ := hdr_run s.compat _ buf' e hl hh hlen1 hhdr hz
             have hfit : e + padLen s.compat e ≤ BUFSZ := by omega
             have hA1' : runA s.compat hl (absOf s out) (b.pend.take j) =
@@ -465,7 +513,7 @@ theorem recv_step (hl : Nat) (s : St) (b : Base) (out : List Bytes) (hg : Good h
               rw [hA1]; simp [afterHdr, absOf, hhdr, hbig, hz]
             have hb1 : Base.Healthy { b with pend := b.pend.drop j } := hb
             by_cases hrest : b.pend.drop j = []
-            · refine ⟨j, hj, hjle, fun _ => ?_⟩
+            · refine ⟨j, hj, hjle, ?_⟩
               rw [recvPayload_empty { s with buf := buf', expecting := e } { b with pend := b.pend.drop j } hf hfit hlt2 hb1 hrest,
                 wrap_zero, hA1']
               refine ⟨rfl, rfl, rfl, rfl, hf, by simp [absOf], rfl,
@@ -475,7 +523,7 @@ theorem recv_step (hl : Nat) (s : St) (b : Base) (out : List Bytes) (hg : Good h
               simp only at hj2 hag
               generalize hj2d : min (e + padLen s.compat e - buf'.length) (b.pend.drop j).length = j2 at hj2 hag
               have hj2le : j2 ≤ (b.pend.drop j).length := by omega
-              refine ⟨j + j2, by omega, by simp only [List.length_drop] at hj2le; omega, fun _ => ?_⟩
+              refine ⟨j + j2, by omega, by simp only [List.length_drop] at hj2le; omega, ?_⟩
               have htk : b.pend.take (j + j2) = b.pend.take j ++ (b.pend.drop j).take j2 := List.take_add
               rw [htk, runA_append, hA1']
               obtain ⟨a1, a2, a3, a4, a5, a6, a7, a8, a9⟩ := hag
@@ -486,7 +534,7 @@ theorem recv_step (hl : Nat) (s : St) (b : Base) (out : List Bytes) (hg : Good h
     have : recvMessage s b = recvPayload s b := by simp [recvMessage, he]
     rw [this]
     obtain ⟨hj, hag⟩ := step_payload hl s b out hf hh he hfit hlt hb hp
-    exact ⟨_, hj, by omega, fun _ => hag⟩
+    exact ⟨_, hj, by omega, hag⟩
 
 theorem stuck_recv (hl : Nat) (s : St) (b : Base) (h : Stuck hl s) :
     (TurnTcp.recv s b).1 = { ret := -1 } ∧ (TurnTcp.recv s b).2.1 = s := by
@@ -524,12 +572,6 @@ theorem good_recv_empty (hl : Nat) (s : St) (b : Base) (hg : Good hl s) (hb : Ba
     have : recvMessage s b = recvPayload s b := by simp [recvMessage, he]
     rw [this, recvPayload_empty s b hf hfit hlt hb hp, wrap_zero]
 
-theorem runA_zero_prefix (c : Compat) (hl : Nat) (a : A) (xs ys : Bytes)
-    (h : (runA c hl a (xs ++ ys)).ph ≠ .zero) : (runA c hl a xs).ph ≠ .zero := by
-  intro hz
-  rw [runA_append, runA_halted c hl _ ys (by rw [hz]; decide)] at h
-  exact h hz
-
 theorem msgs_add (o : Obs) (r : Res) : (o.add r).msgs = o.msgs ++ r.up.map (·.data) := by
   simp [Obs.add, Obs.msgs]
 
@@ -540,7 +582,7 @@ theorem errd_add (o : Obs) (r : Res) : errd (o.add r) = (errd o || decide (r.ret
 
 /-- the receive loop over everything pending = the reference decoder over the same bytes -/
 theorem pump_run (hl : Nat) : ∀ (fuel : Nat) (s : St) (b : Base) (o : Obs), Good hl s → Base.Healthy b →
-    b.pend.length < fuel → (runA s.compat hl (absOf s o.msgs) b.pend).ph ≠ .zero →
+    b.pend.length < fuel →
     (pump turnTcpM fuel s b o).1.compat = s.compat ∧
     (pump turnTcpM fuel s b o).1.buf = (runA s.compat hl (absOf s o.msgs) b.pend).buf ∧
     (pump turnTcpM fuel s b o).1.expecting = (runA s.compat hl (absOf s o.msgs) b.pend).exp ∧
@@ -556,7 +598,7 @@ theorem pump_run (hl : Nat) : ∀ (fuel : Nat) (s : St) (b : Base) (o : Obs), Go
   induction fuel with
   | zero => intro s b o _ _ h; omega
   | succ fuel ih =>
-    intro s b o hg hb hlen hnz
+    intro s b o hg hb hlen
     have hrecv : turnTcpM.recv s b = TurnTcp.recv s b := rfl
     by_cases hp : b.pend = []
     · -- nothing pending: one call, would block
@@ -573,10 +615,7 @@ theorem pump_run (hl : Nat) : ∀ (fuel : Nat) (s : St) (b : Base) (o : Obs), Go
       · intro h; simp [absOf] at h
     · obtain ⟨k, hk0, hkle, hag⟩ := recv_step hl s b o.msgs hg hb hp
       have hsplit : b.pend = b.pend.take k ++ b.pend.drop k := (List.take_append_drop k b.pend).symm
-      have hnz1 : (runA s.compat hl (absOf s o.msgs) (b.pend.take k)).ph ≠ .zero := by
-        apply runA_zero_prefix s.compat hl _ (b.pend.take k) (b.pend.drop k)
-        rw [← hsplit]; exact hnz
-      obtain ⟨a1, a2, a3, a4, a5, a6, a7, a8, a9⟩ := hag hnz1
+      obtain ⟨a1, a2, a3, a4, a5, a6, a7, a8, a9⟩ := hag
       have hrun : runA s.compat hl (absOf s o.msgs) b.pend =
           runA s.compat hl (runA s.compat hl (absOf s o.msgs) (b.pend.take k)) (b.pend.drop k) := by
         conv => lhs; rw [hsplit]
@@ -586,7 +625,6 @@ theorem pump_run (hl : Nat) : ∀ (fuel : Nat) (s : St) (b : Base) (o : Obs), Go
       rw [hR] at a1 a2 a3 a4 a5 a6 a7 a8 a9
       simp only at a1 a2 a3 a4 a5 a6 a7 a8 a9
       cases hph : A1.ph with
-      | zero => exact absurd hph hnz1
       | stuck =>
         obtain ⟨hret, hst⟩ := a9 hph
         have hpump : pump turnTcpM (fuel + 1) s b o = (s1, b1, o.add res) := by
@@ -629,9 +667,7 @@ theorem pump_run (hl : Nat) : ∀ (fuel : Nat) (s : St) (b : Base) (o : Obs), Go
           have hlen1 : b1.pend.length < fuel := by
             rw [a1]; simp only [List.length_drop]; omega
           have hpend1 : b1.pend = b.pend.drop k := by rw [a1]
-          have hnz2 : (runA s1.compat hl (absOf s1 (o.add res).msgs) b1.pend).ph ≠ .zero := by
-            rw [a2, ← hA1eq, hpend1, ← hrun]; exact hnz
-          have := ih s1 b1 (o.add res) hg1 hb1 hlen1 hnz2
+          have := ih s1 b1 (o.add res) hg1 hb1 hlen1
           rw [a2, ← hA1eq, hpend1, ← hrun] at this
           obtain ⟨i1, i2, i3, i4, i5, i6, i7, i8⟩ := this
           refine ⟨i1, i2, i3, i4, i5, ?_, ?_, i8⟩
@@ -654,27 +690,19 @@ structure TOut where
 
 def tOut (x : St × Base × Obs) : TOut := { st := x.1, msgs := x.2.2.msgs, wire := x.2.2.wire, errored := errd x.2.2 }
 
-/-- the stream never makes the layer issue a zero-size read (a frame whose payload is empty) -/
-def NoZeroRead (c : Compat) (s : Bytes) : Prop :=
-  match headerLen c with
-  | none => True
-  | some hl => (runA c hl {} s).ph ≠ .zero
-
 def FInv (hl : Nat) (c : Compat) (pre : Bytes) (x : St × Base × Obs) : Prop :=
   x.1.compat = c ∧ x.1.buf = (runA c hl {} pre).buf ∧ x.1.expecting = (runA c hl {} pre).exp ∧ x.1.fault = false ∧
   x.2.2.msgs = (runA c hl {} pre).out ∧ x.2.2.down = [] ∧
   ((runA c hl {} pre).ph = .run → Good hl x.1 ∧ Base.Healthy x.2.1 ∧ x.2.1.pend = [] ∧ errd x.2.2 = false) ∧
   ((runA c hl {} pre).ph = .stuck → Stuck hl x.1 ∧ errd x.2.2 = true)
 
-theorem feed_inv (hl : Nat) (c : Compat) (pre ch : Bytes) (x : St × Base × Obs) (h : FInv hl c pre x)
-    (hnz : (runA c hl {} (pre ++ ch)).ph ≠ .zero) : FInv hl c (pre ++ ch) (feed turnTcpM (fun _ => 0) x ch) := by
+theorem feed_inv (hl : Nat) (c : Compat) (pre ch : Bytes) (x : St × Base × Obs) (h : FInv hl c pre x) :
+    FInv hl c (pre ++ ch) (feed turnTcpM (fun _ => 0) x ch) := by
   obtain ⟨s, b, o⟩ := x
   obtain ⟨h1, h2, h3, h4, h5, h6, h7, h8⟩ := h
   simp only at h1 h2 h3 h4 h5 h6 h7 h8
-  have hnz0 := runA_zero_prefix c hl {} pre ch hnz
   simp only [feed]
   cases hph : (runA c hl {} pre).ph with
-  | zero => exact absurd hph hnz0
   | stuck =>
     obtain ⟨hst, he⟩ := h8 hph
     have hr := stuck_recv hl s (b.push ch) hst
@@ -707,7 +735,7 @@ theorem feed_inv (hl : Nat) (c : Compat) (pre ch : Bytes) (x : St × Base × Obs
     have hlen : (b.push ch).pend.length < feedFuel (b.push ch) 0 := by simp only [feedFuel]; omega
     have hrunEq : runA s.compat hl (absOf s o.msgs) (b.push ch).pend = runA c hl {} (pre ++ ch) := by
       rw [h1, hA, hpend, runA_append]
-    have := pump_run hl (feedFuel (b.push ch) 0) s (b.push ch) o hg hb' hlen (by rw [hrunEq]; exact hnz)
+    have := pump_run hl (feedFuel (b.push ch) 0) s (b.push ch) o hg hb' hlen
     rw [hrunEq] at this
     obtain ⟨p1, p2, p3, p4, p5, p6, p7, p8⟩ := this
     refine ⟨by rw [p1, h1], p2, p3, p4, p5, by rw [p6, h6], ?_, ?_⟩
@@ -717,18 +745,15 @@ theorem feed_inv (hl : Nat) (c : Compat) (pre ch : Bytes) (x : St × Base × Obs
     · exact p8
 
 theorem feedAll_inv (hl : Nat) (c : Compat) (cs : List Bytes) : ∀ (pre : Bytes) (x : St × Base × Obs),
-    FInv hl c pre x → (runA c hl {} (pre ++ cs.flatten)).ph ≠ .zero →
+    FInv hl c pre x →
     FInv hl c (pre ++ cs.flatten) (cs.foldl (feed turnTcpM (fun _ => 0)) x) := by
   induction cs with
-  | nil => intro pre x h _; simpa using h
+  | nil => intro pre x h; simpa using h
   | cons ch cs ih =>
-    intro pre x h hnz
-    simp only [List.flatten_cons, List.foldl_cons] at hnz ⊢
-    rw [← List.append_assoc] at hnz ⊢
-    apply ih
-    · apply feed_inv hl c pre ch x h
-      exact runA_zero_prefix c hl {} (pre ++ ch) cs.flatten hnz
-    · exact hnz
+    intro pre x h
+    simp only [List.flatten_cons, List.foldl_cons]
+    rw [← List.append_assoc]
+    exact ih _ _ (feed_inv hl c pre ch x h)
 
 theorem init_inv (hl : Nat) (c : Compat) (hh : headerLen c = some hl) :
     FInv hl c [] (({ compat := c } : St), ({} : Base), ({} : Obs)) := by
@@ -737,8 +762,7 @@ theorem init_inv (hl : Nat) (c : Compat) (hh : headerLen c = some hl) :
     fun h => by simp [runA] at h⟩
 
 /-- the outcome is a function of the reference decoder's final state -/
-theorem tOut_of_inv (hl : Nat) (c : Compat) (s : Bytes) (x : St × Base × Obs) (h : FInv hl c s x)
-    (hnz : (runA c hl {} s).ph ≠ .zero) :
+theorem tOut_of_inv (hl : Nat) (c : Compat) (s : Bytes) (x : St × Base × Obs) (h : FInv hl c s x) :
     tOut x = { st := { compat := c, buf := (runA c hl {} s).buf, expecting := (runA c hl {} s).exp, fault := false },
                msgs := (runA c hl {} s).out, wire := [], errored := decide ((runA c hl {} s).ph = .stuck) } := by
   obtain ⟨st, b, o⟩ := x
@@ -747,7 +771,6 @@ theorem tOut_of_inv (hl : Nat) (c : Compat) (s : Bytes) (x : St × Base × Obs) 
   simp only [tOut, TOut.mk.injEq]
   refine ⟨by cases st; simp_all, h5, by simp [Obs.wire, h6], ?_⟩
   cases hph : (runA c hl {} s).ph with
-  | zero => exact absurd hph hnz
   | run => simp [(h7 hph).2.2.2]
   | stuck => simp [(h8 hph).2]
 
